@@ -132,7 +132,7 @@ var replacements = []replacement{
 
 // the smaller list used for pairs of faults
 var pairReplacements = []replacement{
-	{"delete", deleteMarker{}}, {"null", nil}, {`""`, ""}, {"0", 0}, {"{}", map[string]any{}}, {"[]", []any{}},
+	{"delete", deleteMarker{}}, {"null", nil}, {`""`, ""}, {"{}", map[string]any{}},
 }
 
 // type enumerations: a member holding one of these values is also replaced by each of the others
@@ -420,7 +420,7 @@ func runFaults(c *mc.Ctx, idx *int) {
 			}
 		}
 		// pairs of faults (thorough): legacy seeds
-		if c.Thorough() && sd.legacy && (strings.HasPrefix(sd.name, "legacy-ruleset") && !strings.Contains(sd.name, " test.") || si%5 == 0) {
+		if c.Thorough() && sd.legacy && (strings.HasPrefix(sd.name, "legacy-ruleset") && !strings.Contains(sd.name, " test.") || si%7 == 0) {
 			for p1 := range paths {
 				for _, r1 := range pairReplacements {
 					*idx++
